@@ -236,32 +236,49 @@ def explore_config(ast, probes, table, resolver, R0, K, L, alphabet, wb, max_pat
         if only_matched and not matched:
             # the property speaks only about command lines whose complete words the grammar matches
             same = True
+        logf = True
+        if check_log and same is not False:
+            logf = log_ok(it.probe_log, ctx)
+            if it.probe_log:
+                events.add('command-invoked')
         alts = []
-        if same is not True:
+        log_alts = []
+        if same is not True or logf is not True:
             for dv in dev_variants:
                 c2 = refsym.Ctx(e.decide, table, [], dv)
                 _, exp2 = refsym.complete(c2, resolver, R0, words_sym, prefix_sym, wb)
-                alts.append(seteq(reply, exp2, shown))
+                eq2 = seteq(reply, exp2, shown)
+                alts.append(eq2)
+                if check_log:
+                    log_alts.append(sym.conj([eq2, log_ok(it.probe_log, c2)]))
         sites.update(it.sites)
         events.update(ctx.events)
         if reply:
             events.add('nonempty-reply')
         if rc == 1:
             events.add('return-1')
-        logf = True
-        if check_log and same is not False:
-            logf = log_ok(it.probe_log, ctx)
-            if it.probe_log:
-                events.add('command-invoked')
-        return same, alts, logf
+        logq = False
+        if check_log and logf is not True:
+            # a violation of the invocation contract: the candidates agree with the grammar (or with a listed known
+            # deviation) but the calls agree with none of those readings
+            acceptable = sym.disj([sym.conj([same, logf])] + log_alts)
+            agrees = sym.disj([same] + alts)
+            logq = sym.conj([agrees, sym.neg(acceptable)])
+        return same, alts, logq
 
-    for (same, alts, logf) in eng.explore(program, base):
+    limit = None
+    gen = eng.explore(program, base)
+    while True:
+        try:
+            (same, alts, logq) = next(gen)
+        except StopIteration:
+            break
+        except sym.PathLimit as e:
+            limit = str(e)
+            break
         npaths += 1
-        if logf is not True:
-            extra = [] if same is True else [same]
-            if logf is not False:
-                extra.append(z3.Not(logf))
-            if eng.check(extra, 'invocations-differ'):
+        if logq is not False:
+            if eng.check([] if logq is True else [logq], 'invocations-differ'):
                 cex_log.append(model_words(eng.model(), ws + [pw]))
         if same is True:
             pass
@@ -283,17 +300,20 @@ def explore_config(ast, probes, table, resolver, R0, K, L, alphabet, wb, max_pat
         if npaths % sample_every == 1:
             if eng.check([], 'witness'):
                 witnesses.append(model_words(eng.model(), ws + [pw]))
-    return {'paths': npaths, 'cex': cex, 'cex_new': cex_new, 'cex_log': cex_log, 'witnesses': witnesses, 'queries': eng.queries,
+    return {'paths': npaths, 'limit': limit, 'cex': cex, 'cex_new': cex_new, 'cex_log': cex_log, 'witnesses': witnesses, 'queries': eng.queries,
             'solver_s': eng.solver_s, 'sites': sorted(sites), 'events': sorted(events)}
 
 
-def attribute(resolver, R0, table, ws, wb, real_set, shown, devs=KNOWN_DEVS):
-    """Smallest set of known deviations whose model reproduces what the real bash did; None if none does."""
+def attribute(resolver, R0, table, ws, wb, real_set, shown, devs=KNOWN_DEVS, real_log=None):
+    """Smallest set of known deviations whose model reproduces what the real bash did (candidates and, if
+    given, the command invocations); None if none does."""
     for n in range(1, len(devs) + 1):
         for combo in itertools.combinations(devs, n):
             ctx = refsym.Ctx(lambda c: bool(c), table, [], combo)
             _, c = refsym.complete(ctx, resolver, R0, ws[:-1], ws[-1], wb)
             if set(c) - {shown} == real_set - {shown}:
+                if real_log is not None and log_ok(real_log, ctx) is not True:
+                    continue
                 return combo
     return None
 
@@ -357,6 +377,10 @@ def analyse(job):
                                    check_log=job.get('check_log', False), cross_every=job.get('cross_every', 0))
                 res['paths'] += r['paths']
                 res['solver_s'] += r['solver_s']
+                if r['limit']:
+                    # not explored to the end: counted as such; what was found before the limit is still replayed
+                    res['status'] = 'budget-exceeded'
+                    res['budget_note'] = r['limit']
                 for k, v in r['queries'].items():
                     res['queries'][k] = res['queries'].get(k, 0) + v
                 res['sites'] = sorted(set(res['sites']) | set(r['sites']))
@@ -409,7 +433,8 @@ def analyse(job):
                                                'real': sorted(set(rreply)), 'expected': sorted(set(expected)),
                                                'matched_by_grammar': matched, 'rc': rrc, 'script': script,
                                                'probes': probes}))
-                elif job.get('check_log') and log_ok([tuple(x) for x in rlog], cctx) is not True:
+                elif job.get('check_log') and log_ok([tuple(x) for x in rlog], cctx) is not True and \
+                        attribute(resolver, R0, table, ws, wb, set(rreply), shown, real_log=[tuple(x) for x in rlog]) is None:
                     exp_calls = sorted((pid_of(t), a1, a2) for (t, a1, a2) in cctx.complete_calls)
                     what = ('for words %r + typed %r bash ran the commands %r; the grammar prescribes the completion calls %r and allows '
                             'only the commands %r to run while matching' % (ws[:-1], ws[-1], [tuple(x) for x in rlog], exp_calls,
